@@ -1,23 +1,107 @@
 (* Properties/C19.v — Ping completes exactly on a matching echo reply.
    Only statements, each closed by [exact] of a lemma proved in Proofs/Ping*.v.
-   The event system is Model/Ping.v; [run false] is the code as it is in /repo
-   (before the repair of DESIGN section 11 #24), [run true] the repaired code. *)
-From PV Require Import Base.Prelude Model.Ping Proofs.Ping.
+
+   The event system is Model/Ping.v: histories are lists of Begin / Notify / Skip / Timeout / End
+   events; [run fx (init n) tr = Ok s] says that tr is a well-formed history (every event enabled
+   when it happens) from an empty table with next-id n, ending in s.  [run false] is the code as
+   it is in /repo before the repair of DESIGN section 11 #24, [run true] the repaired code; every
+   theorem that does not mention the difference holds for both ([fx] universally quantified).
+   Real time enters only as the Timeout event.  What a frame does (Notify i or Skip) is
+   Model/PingFrame.v; its agreement with the RFC reading is in the frame theorems below. *)
+From PV Require Import Base.Prelude Model.Ping Model.PingTrace.
+From PV Require Import Proofs.Ping Proofs.PingIff Proofs.PingMore.
 Open Scope N_scope.
+
+(* ---------------------------------------------------------------------------------------- *)
+(* C19_iff.  For every history, every call p and every way of cutting the history at p's Begin
+   and p's (first) End: p returns nil iff a notification carrying p's own identifier happened
+   between the two, and ErrTimeout iff none did — provided no call waits across 65536 Begin
+   events ([young] in every state; see C19_distinct for why this is needed: the code never checks
+   whether an identifier is still in use). The deadline that counts is the moment the call leaves
+   its select and takes the table lock (End p), which is at or after the timer (Timeout p): a
+   reply that arrives between the two still completes the call. *)
+Theorem C19_iff : forall fx n pre p mid post s,
+  n < 65536 ->
+  run fx (init n) (pre ++ Begin p true :: mid ++ End p :: post) = Ok s ->
+  always fx young (init n) (pre ++ Begin p true :: mid ++ End p :: post) ->
+  ~ In (End p) mid ->
+  exists i, id_of s p = Some i /\
+    (result_of s p = Some RNil <-> In (Notify i) mid) /\
+    (result_of s p = Some RTimeout <-> ~ In (Notify i) mid).
+Proof. exact ping_iff. Qed.
+Print Assumptions C19_iff.
+
+(* The hypothesis is satisfiable and both outcomes occur: call 1 (id 2) sees only notifications
+   for other identifiers and times out, call 0 (id 1) is completed by its own. *)
+Example C19_iff_nonvacuous :
+  exists s, run false init_go ex_history = Ok s /\ always false young init_go ex_history /\
+            ~ In (End 1%nat) ex_mid /\
+            id_of s 1%nat = Some 2 /\ result_of s 1%nat = Some RTimeout /\
+            id_of s 0%nat = Some 1 /\ result_of s 0%nat = Some RNil /\
+            id_of s 2%nat = Some 3 /\ result_of s 2%nat = None.
+Proof. exact ping_iff_nonvacuous. Qed.
+Print Assumptions C19_iff_nonvacuous.
+
+(* Every history with fewer than 65536 calls in total satisfies the hypothesis. *)
+Theorem C19_young_if_few_calls : forall fx n tr,
+  count_begins tr < 65536 -> always fx young (init n) tr.
+Proof. exact few_begins_young. Qed.
+Print Assumptions C19_young_if_few_calls.
+
+(* ---------------------------------------------------------------------------------------- *)
+(* C19_distinct.  Identifiers are next0 + (number of earlier Begin events) mod 2^16; the table is
+   not consulted.  Exact condition for two calls to share an identifier, and distinctness of the
+   calls that wait at the same time when the state is young. *)
+Theorem C19_id_rule : forall fx n tr s q pg, n < 65536 -> run fx (init n) tr = Ok s ->
+  pget (pings s) q = Some pg -> p_id pg = (n + p_seq pg) mod 65536 /\ p_seq pg < cnt s.
+Proof. exact id_rule. Qed.
+Print Assumptions C19_id_rule.
+
+Theorem C19_ids_equal_exact : forall fx n tr s q1 q2 pg1 pg2, n < 65536 -> run fx (init n) tr = Ok s ->
+  pget (pings s) q1 = Some pg1 -> pget (pings s) q2 = Some pg2 ->
+  (p_id pg1 = p_id pg2 <-> p_seq pg1 mod 65536 = p_seq pg2 mod 65536).
+Proof. exact ids_equal_exact. Qed.
+Print Assumptions C19_ids_equal_exact.
+
+Theorem C19_distinct : forall fx n tr s q1 q2 pg1 pg2,
+  n < 65536 -> run fx (init n) tr = Ok s -> young s ->
+  q1 <> q2 -> pget (pings s) q1 = Some pg1 -> pget (pings s) q2 = Some pg2 ->
+  p_phase pg1 = Waiting -> p_phase pg2 = Waiting -> p_id pg1 <> p_id pg2.
+Proof. exact distinct_run. Qed.
+Print Assumptions C19_distinct.
+
+(* ---------------------------------------------------------------------------------------- *)
+(* C19_each_own.  A notification changes only the call that owns the table entry of that
+   identifier, and that call carries this identifier; notifications commute. *)
+Theorem C19_each_own : forall fx s i s' q, Inv s -> step fx s (Notify i) = Ok s' ->
+  pget (pings s') q <> pget (pings s) q ->
+  exists pg, pget (pings s) q = Some pg /\ p_id pg = i /\ tget (tbl s) i = Some q.
+Proof. exact notify_only_owner. Qed.
+Print Assumptions C19_each_own.
+
+Theorem C19_reachable_Inv : forall fx n tr s, n < 65536 -> run fx (init n) tr = Ok s -> Inv s.
+Proof. exact Inv_run. Qed.
+Print Assumptions C19_reachable_Inv.
+
+Theorem C19_notify_comm : forall fx s a b, Inv s ->
+  run fx s [Notify a; Notify b] = run fx s [Notify b; Notify a].
+Proof. exact notify_comm. Qed.
+Print Assumptions C19_notify_comm.
 
 (* The waiter's channel is closed at most once: no history makes echoNotify panic. *)
 Theorem C19_no_panic : forall fx n tr, n < 65536 -> run fx (init n) tr <> Panic.
 Proof. exact run_no_panic. Qed.
 Print Assumptions C19_no_panic.
 
-(* No waiter entry is left behind: every entry of the table belongs to a call that is still
-   blocked in its select.  Code as it is: refuted by a failed send ... *)
+(* ---------------------------------------------------------------------------------------- *)
+(* C19_no_leak.  Every entry of the table belongs to a call that is still blocked in its select.
+   Code as it is: refuted by a failed send ... *)
 Theorem C19_no_leak_refuted :
   exists tr s, known_C19_sendfail tr = true /\ run false init_go tr = Ok s /\ ~ owned_by_waiting s.
 Proof. exact no_leak_refuted. Qed.
 Print Assumptions C19_no_leak_refuted.
 
-(* ... and proved for every history outside that class, *)
+(* ... proved for every history outside that class, *)
 Theorem C19_no_leak_partial : forall n tr s, n < 65536 -> known_C19_sendfail tr = false ->
   run false (init n) tr = Ok s -> owned_by_waiting s.
 Proof. exact no_leak_partial. Qed.
@@ -33,6 +117,14 @@ Theorem C19_empty_when_idle : forall s,
   owned_by_waiting s -> (forall q, waiting s q = false) -> tbl s = [].
 Proof. exact empty_when_idle. Qed.
 Print Assumptions C19_empty_when_idle.
+
+(* The table is exactly the set of calls that wait and have not been woken. *)
+Theorem C19_table_exact : forall fx n tr s, n < 65536 -> run fx (init n) tr = Ok s ->
+  always fx young (init n) tr -> (fx = true \/ known_C19_sendfail tr = false) ->
+  forall i q, tget (tbl s) i = Some q <->
+    exists pg, pget (pings s) q = Some pg /\ p_phase pg = Waiting /\ p_recv pg = false /\ p_id pg = i.
+Proof. exact table_exact. Qed.
+Print Assumptions C19_table_exact.
 
 Example C19_no_leak_nonvacuous :
   exists s, known_C19_sendfail ex_trace = false /\ run false init_go ex_trace = Ok s /\
